@@ -14,19 +14,22 @@ open Biscuit Biscuit.Wire
 /-- Sealing changes nothing but the proof: same root key id, same signed blocks. -/
 theorem seal_keeps_blocks (S : SigScheme) (e e' : BiscuitMsg) (h : sealEnvelope S e = .ok e') :
     e'.rootKeyId = e.rootKeyId ∧ e'.authority = e.authority ∧ e'.blocks = e.blocks := by
-  sorry
+  obtain ⟨sk, _, _, rfl⟩ := sealEnvelopeWith_ok true S e e' h
+  exact ⟨rfl, rfl, rfl⟩
 
 /-- What the authorizer evaluates — the parsed blocks — is the same for the sealed token:
 any function of the signed blocks (in particular `Unmarshal`'s block parse and hence every
 `Authorize` outcome for every authorizer) agrees. -/
 theorem seal_same_content (S : SigScheme) (e e' : BiscuitMsg) (h : sealEnvelope S e = .ok e') :
     parseAll (e'.authority :: e'.blocks) = parseAll (e.authority :: e.blocks) := by
-  sorry
+  obtain ⟨_, h2, h3⟩ := seal_keeps_blocks S e e' h
+  rw [h2, h3]
 
 /-- Same revocation identifiers. -/
 theorem seal_revocation_same (S : SigScheme) (e e' : BiscuitMsg) (h : sealEnvelope S e = .ok e') :
     revocationIds e' = revocationIds e := by
-  sorry
+  obtain ⟨_, h2, h3⟩ := seal_keeps_blocks S e e' h
+  simp only [revocationIds, h2, h3]
 
 structure SchemeCorrect (S : SigScheme) : Prop where
   verifies : ∀ sk m, S.verify (S.pub sk) m (S.sign sk m) = true
@@ -36,21 +39,23 @@ structure SchemeCorrect (S : SigScheme) : Prop where
 theorem seal_verifies (S : SigScheme) (hS : SchemeCorrect S) (root : Bytes) (e e' : BiscuitMsg)
     (hv : verifyChain S root e = .ok ()) (h : sealEnvelope S e = .ok e') :
     verifyChain S root e' = .ok () := by
-  sorry
+  rw [verifyChain_ok_iff] at hv ⊢
+  exact seal_chainGood S hS.verifies true root e e' hv h
 
 /-- A sealed token can be neither extended nor sealed again: both fail with an error. -/
 theorem append_sealed_fails (S : SigScheme) (e : BiscuitMsg) (sig : Bytes) (hp : e.proof = .finalSignature sig)
     (block : Bytes) (rng : Rng) : appendEnvelope S e block rng = .error .sealed := by
-  sorry
+  simp [appendEnvelope, appendEnvelopeWith, hp]
 
 theorem seal_sealed_fails (S : SigScheme) (e : BiscuitMsg) (sig : Bytes) (hp : e.proof = .finalSignature sig) :
     sealEnvelope S e = .error .sealed := by
-  sorry
+  simp [sealEnvelope, sealEnvelopeWith, hp]
 
 /-- The result of sealing is sealed (so the two refusals above apply to it). -/
 theorem seal_result_is_sealed (S : SigScheme) (e e' : BiscuitMsg) (h : sealEnvelope S e = .ok e') :
     ∃ sig, e'.proof = .finalSignature sig := by
-  sorry
+  obtain ⟨sk, _, _, rfl⟩ := sealEnvelopeWith_ok true S e e' h
+  exact ⟨_, rfl⟩
 
 /-- A sealed token whose seal signature, last block or last announced key is altered is
 rejected — unless the holder of the last announced secret signed the altered payload
@@ -60,7 +65,13 @@ theorem sealed_tamper_rejected (S : SigScheme) (Issued : Bytes → Bytes → Byt
     (root : Bytes) (e : BiscuitMsg) (sig : Bytes) (hp : e.proof = .finalSignature sig)
     (hnot : ¬ Issued (lastBlock e).nextKey.key (sealPayload (lastBlock e)) sig) :
     ∃ r, verifyChain S root e = .error r := by
-  sorry
+  rcases verifyChain_ok_or_error S root e with h | h
+  · rw [verifyChain_ok_iff] at h
+    have := h.2
+    unfold ProofGood at this
+    rw [hp] at this
+    exact absurd (hU _ _ _ this) hnot
+  · exact h
 
 /-- Well-formed envelopes survive `Serialize` / `Unmarshal` unchanged, so all of the above
 still holds after persistence. -/
@@ -68,7 +79,33 @@ def EnvWF (e : BiscuitMsg) : Prop :=
   (∀ i, e.rootKeyId = some i → i < 2^32) ∧
   (∀ sb ∈ e.authority :: e.blocks, sb.nextKey.algorithm < 2^64)
 
+/-- FINDING — `reload_identity` is FALSE as stated: `EnvWF` bounds no byte-string length, and
+the decoder (like protobuf) reads varints of at most ten bytes, i.e. lengths below 2^70.
+Counterexample (`Wire.hugeEnvelope`, proved in `Proofs/WireEnvelope`): an authority block of
+2^70 zero bytes satisfies `EnvWF` but `reload` returns `none`
+(`reload_identity_counterexample` below). The closest true statements are
+`reload_identity_partial` (serialization shorter than 2^64 bytes — every real one) and
+`reload_identity_of_some` (whenever the reload succeeds at all, it is the identity). -/
 theorem reload_identity (e : BiscuitMsg) (h : EnvWF e) : reload e = some e := by
   sorry
+
+theorem reload_identity_counterexample : EnvWF hugeEnvelope ∧ reload hugeEnvelope = none := by
+  refine ⟨⟨fun i hi => ?_, fun sb hsb => ?_⟩, hugeEnvelope_not_reloadable⟩
+  · have hi' : (none : Option Nat) = some i := hi
+    cases hi'
+  · have : sb = hugeEnvelope.authority := List.mem_singleton.mp hsb
+    subst this
+    show (0 : Nat) < 2 ^ 64
+    omega
+
+/-- The round trip with the missing side condition made explicit: the serialized token is
+shorter than 2^64 bytes. -/
+theorem reload_identity_partial (e : BiscuitMsg) (h : EnvWF e) (hlen : (encodeBiscuit e).length < 2^64) :
+    reload e = some e :=
+  decodeBiscuit_encode_of_length e h.1 h.2 hlen
+
+/-- Without any length condition: a reload that succeeds returns the envelope unchanged. -/
+theorem reload_identity_of_some (e e' : BiscuitMsg) (h : EnvWF e) (hr : reload e = some e') : e' = e := by
+  rw [reload_some e e' hr, normEnv_eq e h.1 h.2]
 
 end Biscuit.C09
